@@ -95,6 +95,8 @@ D1 = [
     _root('<open id="a"/><open id="a" ref="zz"/>'),
     _root('<secB>' + _item('Ext', [1, 1]) + '</secB><bogus/>'),                          # children error after dup
     _root(''),
+    _root('<secA><item/></secA><secB>' + _item('Ext', [6, 7]) + '</secB>'),              # ua's counter exists but is disabled
+    _root('<secB>' + _item('Ext', [8, 8]) + '</secB><secA>' + _item('Ext', [9, 9]) + '</secA>'),
 ]
 
 S2 = f'''<xs:schema xmlns:xs="{XS}" xmlns:vc="http://www.w3.org/2007/XMLSchema-versioning" elementFormDefault="qualified">
@@ -410,6 +412,16 @@ def load_findings(ctx: Ctx) -> None:
 # one history
 # ------------------------------------------------------------------------------------------------
 def run_history(ctx: Ctx, pi: int, pool: Pool, hist: list, drv: Optional[Driver], tag: str) -> None:
+    try:
+        _run_history(ctx, pi, pool, hist, drv, tag)
+    except Exception as e:       # noqa: a clean tree never gets here: schema construction or the walk blew up
+        import traceback
+        ctx.failure('replaying the history raised an unexpected exception (schema construction or a call on a fresh '
+                    'object failed after earlier use of the library)', {'pool': pi, 'history': hist},
+                    {'exception': repr(e)[:300], 'where': traceback.format_exc()[-600:]})
+
+
+def _run_history(ctx: Ctx, pi: int, pool: Pool, hist: list, drv: Optional[Driver], tag: str) -> None:
     """hist: list of [op, doc index, stop_at]"""
     case = {'pool': pi, 'history': hist}
     shared = make_schema(pool.version, pool.xsd)
@@ -563,7 +575,7 @@ def run(ctx: Ctx, driver_ok: bool) -> None:
                     run_history(ctx, pi, pool, [[op1, d1, 2], ['iter_errors', d2, 1], ['decode', d2, 1]], drv, 'pairs')
             if ctx.time_left() < 200:
                 break
-    n = ctx.pick(250, 3000)
+    n = ctx.pick(250, 1200)
     maxlen = ctx.pick(12, 60)
     for i in range(n):
         pi = ctx.rng.randrange(len(pools))
